@@ -5,6 +5,11 @@ V = os.path.dirname(os.path.dirname(os.path.abspath(__file__)))
 props = [json.loads(l) for l in open(os.path.join(V, "properties.jsonl"))]
 
 CLAIMS = {
+ "C04": dict(
+  text="Machine-checked (Lean 4 kernel) for every operand value of int8/uint8/int32/uint32: the model of value.go's operator arms (tags regenerated from value.go on this run) selects the arm Go's typing prescribes and computes exactly Go's two's-complement result with the operand type kept (binop_arm, binop_typed), untyped constants adopt the typed operand's type on either side (untyped_adopts), shifts keep the left operand's type for any count type and reject negative counts (shift_typed), ++/--/op=/+k, unary - and ^ (incdec_typed, negate_typed, complement_typed), conversions and stores (convert_int, conv_inRange, assign_untyped, assign_typed), results stay in range (toZ_inRange, binop_wt), integer division by zero is an error. The model is tied to the real opAdd.../assign/convert by a correspondence that is exhaustive for the 8-bit types; native Go arithmetic through script functions in every syntactic position is the search oracle. float64 operations are delegated to the host (checked bit-for-bit by search only).",
+  note="Trusted: Lean kernel; axioms propext, Quot.sound, Classical.choice; goatx (type tags, CAST list); float64 arithmetic and float<->int conversion are Go's/the CPU's (modelled with Lean Float only for the executable correspondence; nothing is proved about IEEE-754); A-f64-int: integers below 2^53 are exact in the float64 carrier; which instruction the compiler picks for each syntactic position is covered by search here and by C02's rule soundness, not by a C04 theorem; untyped constant folding beyond 2^53 and float literals next to integer operands (finding N8) are outside the theorems.",
+  technique="Lean 4 proof over BitVec (arm selection by regenerated tag table, all operand values symbolic) + exhaustive 8-bit model/implementation correspondence + native Go oracle",
+  ref="7/C04"),
  "C05": dict(
   text="Machine-checked (Lean 4 kernel) for every expression of any size and nesting: goatlang's Pratt parser, with the binding-power table regenerated from symbol.go on this run, reads the text that Go's five-level grammar prints for a tree (with any redundant parentheses) back as exactly that tree (theorems groups_as_go, groups_as_go_ctx; table facts table_ops/table_ok/table_iso/table_order by kernel evaluation on the regenerated table; &^ by andnot_equiv). The hand-written parser model is tied to the real parser by an exhaustive + random tree-for-tree correspondence, and go/parser plus native Go evaluation search for a failing input.",
   note="Trusted: Lean kernel; axioms propext, Quot.sound, Classical.choice only; goatx table extractor; the parser model covers names, integer literals, the 18 binary and 3 prefix operators and parentheses (calls, indexing, selectors, composite literals are not in the model; they bind tighter than every operator and are exercised only by the correspondence run through the real parser); text/scanner tokenisation is trusted; values are checked by search (native Go int32/bool evaluation), not proved here (C04 carries the arithmetic).",
